@@ -80,6 +80,7 @@ class Run:
         self.gated_cache = gated_cache
         self.xround = {}
         self.ntryfail = 0
+        self.tryfailed = {}
 
     def log(self, *ev):
         self.ctl.trace.append(('ev',) + ev)
@@ -118,11 +119,17 @@ class CLock(GLock):
             # the lock is held (the unchanged code never does this; a failed attempt is not part of
             # the canonical trace, a successful one is an ordinary 'acq')
             cid = R.cid()
-            R.ctl.gate(f'try:{cid}')
+            me = R.ctl.me()
+            # the first attempt is always enabled (and may fail); a thread that has just failed is not
+            # scheduled for another attempt before the lock is free again: spinning on a held lock makes
+            # no progress, and an (unfair) schedule that only runs the spinner is not a finding
+            R.ctl.gate(f'try:{cid}', enabled=lambda: self.owner is None or not R.tryfailed.get(me))
             if self.owner is None:
-                self.owner = R.ctl.me()
-                R.log('tryok', int(R.ctl.me()[1:]), cid)
+                self.owner = me
+                R.tryfailed[me] = False
+                R.log('tryok', int(me[1:]), cid)
                 return True
+            R.tryfailed[me] = True
             R.ntryfail += 1
             return False
         R.ctl.gate(f'acq:{R.cid()}', enabled=lambda: self.owner is None)
